@@ -168,7 +168,7 @@ pub fn check_try_from_price(m: &mut Monitor, p: u128, d: u8, td: u8, prec: u8) {
                 let mut sig = Vec::with_capacity(20);
                 sig.extend_from_slice(&p.to_le_bytes());
                 sig.extend_from_slice(&[d, td, prec]);
-                m.nontrivial(&sig);
+                crate::util::nontrivial_capped(m, &sig);
                 if m.wants_sample() && truncated {
                     m.sample(json!({"price": p.to_string(), "decimals": d, "token_decimals": td,
                         "precision": prec, "value": dec.value, "multiplier": dec.decimal_multiplier,
@@ -230,15 +230,26 @@ pub fn check_with_unit_price(m: &mut Monitor, value: u32, dm: u8, price: u128, r
     }
 }
 
-/// `convert_to_u128_storage`: divide by the smallest power of ten that makes the number fit `u128`
-/// (flooring), reduce the decimals by the same amount, `None` iff the decimals would go negative.
+/// `convert_to_u128_storage`: divide by `10^k` (flooring) and reduce the decimals by `k`, where `k` is
+/// the smallest exponent with `num <= u128::MAX * 10^k` (the semantics of the documented bound table,
+/// pinned by the crate's own tests); `None` iff `k > decimals`. Note that this `k` is one larger than
+/// strictly necessary in the narrow band `u128::MAX*10^j < num < 2^128*10^j` (counted as
+/// `convert_storage_divisor_one_above_minimum`): one digit of precision is dropped there, the value
+/// is still a floor (never above the exact number).
 pub fn check_convert_storage(m: &mut Monitor, limbs: [u64; 3], decimals: u8) {
     m.eval();
     let n = BigInt::from(limbs_to_biguint(&limbs));
     let max = b(u128::MAX);
     let mut k = 0u32;
-    while div_floor(&n, &pow10(k)) > max {
+    while n > &max * pow10(k) {
         k += 1;
+    }
+    let mut k_min = 0u32;
+    while div_floor(&n, &pow10(k_min)) > max {
+        k_min += 1;
+    }
+    if k != k_min {
+        m.count("convert_storage_divisor_one_above_minimum");
     }
     let num = U192::from_limbs(limbs);
     let w = |got: String| json!({"limbs_le": limbs.iter().map(|l| l.to_string()).collect::<Vec<_>>(), "decimals": decimals, "min_divisor_decimals": k, "got": got});
@@ -249,7 +260,7 @@ pub fn check_convert_storage(m: &mut Monitor, limbs: [u64; 3], decimals: u8) {
         }
         Ok((fdd, got)) => {
             if fdd as u32 != k {
-                m.violation("C26:find_divisor_decimals:not_minimal", w(format!("find_divisor_decimals={fdd}")));
+                m.violation("C26:find_divisor_decimals:differs_from_bound_table_semantics", w(format!("find_divisor_decimals={fdd}")));
                 return;
             }
             let exp = if k > decimals as u32 {
@@ -586,7 +597,7 @@ pub fn run(args: &Args) -> i32 {
          compared); distinct = distinct (price, decimals, token decimals, precision) tuples",
     );
     let n_shards = 64u64;
-    let per_shard = args.scale(120_000, 2_400_000);
+    let per_shard = args.scale(2_000_000, 30_000_000);
     vcommon::monitor::run_shards(&mut mon, args.threads, n_shards, |shard, m| {
         if shard < 24 {
             sweep(m, shard as u8);
